@@ -78,7 +78,8 @@ def run(run):
 
 def _visit_eval(project):
     f = project.fn(T + ".ToastSampler.visit_callback")
-    ev = sym.make_evaluator(project, T, [])
+    ev = sym.make_evaluator(project, T, [], inline_local=True, no_inline=("toast_tile_get_coords", "_div4", "_create_level1_tiles", "sample_layer",
+                                                                           "sample_layer_filtered", "generate_tiles", "generate_tiles_filtered"))
     ev.self_class = T + ".ToastSampler"      # the sampler's own helper methods belong to the callback
     return f, ev, ev.run(f.node)
 
@@ -188,7 +189,8 @@ def _r2b_sampler(run):
     project = run.project
     f = project.fn(T + ".ToastSampler.__init__")
     run.note_func(f)
-    ev = sym.make_evaluator(project, T, ["toasty.image.get_format_vertical_parity_sign"])
+    ev = sym.make_evaluator(project, T, ["toasty.image.get_format_vertical_parity_sign"], inline_local=True)     # the decision may sit in a module helper
+    ev.self_class = T + ".ToastSampler"
     r = ev.run(f.node)
     vf, vev, vr = _visit_eval(project)
     flag = _flag_of(vr, vf)[0]
@@ -272,7 +274,9 @@ def _r2b_sampler(run):
 
 def _r3(run):
     project = run.project
-    ev = sym.make_evaluator(project, T, [])
+    # the two entry points with the module helpers they share spliced in (e.g. one "sample the leaves of this pyramid" helper)
+    ev = sym.make_evaluator(project, T, [], inline_local=True, no_inline=("toast_tile_get_coords", "_div4", "_create_level1_tiles", "generate_tiles",
+                                                                           "generate_tiles_filtered", "toast_tile_for_point", "toast_pixel_for_point", "create_single_tile"))
     for name, clobber, factory, n_fargs in (("sample_layer", True, "new_toast", 1), ("sample_layer_filtered", False, "new_toast_filtered", 2)):
         f = project.fn("%s.%s" % (T, name))
         run.note_func(f)
